@@ -12,10 +12,10 @@ def _children(jobs, fn, nthreads):
 
 # ------------------------------------------------------------------------------------------- C16
 
-def c16_case(binp, entry, start, stderr_mode="devnull"):
+def c16_case(binp, entry, start, stderr_mode="devnull", unwinding=False):
     """stderr_mode "broken-pipe": the child's standard error is a pipe whose reader has gone away
     (`prog 2>&1 | head`), so any attempt to print there fails at the moment of the abort."""
-    cmd = [binp, "overflow-child", "--entry", entry, "--start", str(start)]
+    cmd = [binp, "overflow-child", "--entry", entry, "--start", str(start)] + (["--unwinding"] if unwinding else [])
     if stderr_mode == "broken-pipe":
         r, w = os.pipe()
         os.close(r)
@@ -96,20 +96,25 @@ def c16(check, pid, tier, seed):
                 jobs.append((cfg, b, e, s, "devnull"))
                 if s >= ISIZE_MAX:
                     jobs.append((cfg, b, e, s, "broken-pipe"))
+                if "@" not in e:
+                    # the same clone made from a destructor while the thread is already unwinding
+                    jobs.append((cfg, b, e, s, "unwinding"))
             for i, s in enumerate(extras):
                 jobs.append((cfg, b, e, s, "broken-pipe" if i % 4 == 3 else "devnull"))
     def run(j):
         cfg, b, e, s, mode = j
-        rc, out = c16_case(b, e, s, mode)
+        rc, out = c16_case(b, e, s, "devnull" if mode == "unwinding" else mode, unwinding=(mode == "unwinding"))
         return j, rc, out
     results = _children(jobs, run, check.NCPU)
     viols, aborted, succeeded, at_limit = [], 0, 0, {"success": 0, "abort": 0}
     per_entry = {}
-    broken_pipe = 0
+    broken_pipe, unwinding = 0, 0
     for (cfg, b, e, s, mode), rc, out in results:
         v = c16_judge(s, rc, out)
         if mode == "broken-pipe":
             broken_pipe += 1
+        if mode == "unwinding":
+            unwinding += 1
         if rc == -signal.SIGABRT:
             aborted += 1
         elif rc == 0:
@@ -147,7 +152,7 @@ def c16(check, pid, tier, seed):
         "exhaustive": False,
         "matrix": {"starts": [str(s) for s in starts], "seeded_extra_starts": nextra, "entry_points_per_config": {k: 0 for k in []}, "configs": list(bins.keys())},
         "children_per_entry": per_entry,
-        "fault_kinds_fired": {"counter_preset": len(results), "stderr_is_a_broken_pipe_at_the_moment_of_the_clone": broken_pipe, "process_aborted": aborted, "clone_succeeded": succeeded, "at_soft_limit": at_limit},
+        "fault_kinds_fired": {"counter_preset": len(results), "stderr_is_a_broken_pipe_at_the_moment_of_the_clone": broken_pipe, "clone_made_from_a_destructor_while_the_thread_is_unwinding": unwinding, "process_aborted": aborted, "clone_succeeded": succeeded, "at_soft_limit": at_limit},
         "runs_per_hour": int(len(results) / wall * 3600),
         "simulated_time": {"unit": "forgotten clones skipped by presetting the counter", "steps": "up to 2^64-1 per case"},
         "components": check.REAL_VS_STUB,
@@ -175,7 +180,8 @@ def c16_replay(check, path):
         if l.startswith("# cfg:"):
             cfg = l.split(":")[1].strip()
     b = check.build(cfg)
-    rc, out = c16_case(b, kv["entry"], int(kv["start"]), kv.get("stderr", "devnull"))
+    mode = kv.get("stderr", "devnull")
+    rc, out = c16_case(b, kv["entry"], int(kv["start"]), "devnull" if mode == "unwinding" else mode, unwinding=(mode == "unwinding"))
     sys.stdout.write(out)
     v = c16_judge(int(kv["start"]), rc, out)
     print(f"exit status {rc}; verdict: {v}")
